@@ -13,6 +13,7 @@ from __future__ import annotations
 import ast
 import functools
 import inspect
+import re
 import os
 
 import z3
@@ -602,3 +603,130 @@ def _native_mutators(tier="quick", seed=0):
 
 
 JOBS["C10.native_mutators"] = _native_mutators
+
+
+# ---------------------------------------------------------------------------------------------------------
+# hand-written members of the element classes that change children (property setters and mutator methods): whatever the valid
+# prior children are, the children afterwards are in schema order with schema multiplicities (in particular: at most one member
+# of each choice).  Same symbolic element model as above; the argument is an opaque value.
+
+_HW_PREFIXES = ("get_or_add", "add_", "get_or_change_to", "remove_", "unclear_")
+
+
+def _handwritten_members(cls):
+    import types
+
+    out = []
+    for k in cls.__mro__:
+        if not k.__module__.startswith("pptx.oxml") or k.__name__ in ("BaseOxmlElement", "_OxmlElementBase"):
+            continue
+        for n, f in k.__dict__.items():
+            if isinstance(f, property) and isinstance(f.fset, types.FunctionType) and f.fset.__module__ == k.__module__:
+                out.append((k, n + ".fset", f.fset, 1))
+            elif isinstance(f, types.FunctionType) and f.__module__ == k.__module__ and n.startswith(_HW_PREFIXES) and (k.__name__, n) not in _HELPERS_WITH_PRECONDITION:
+                ps = list(inspect.signature(f).parameters.values())[1:]
+                req = [p_ for p_ in ps if p_.default is p_.empty and p_.kind in (p_.POSITIONAL_ONLY, p_.POSITIONAL_OR_KEYWORD)]
+                if len(req) <= 1:
+                    out.append((k, n, f, len(req)))
+    seen, res = set(), []
+    for k, n, f, na in out:
+        if n not in seen:
+            seen.add(n)
+            res.append((k, n, f, na))
+    return res
+
+
+# members outside the generator's subset on the unchanged tree (reason), or paired with an XSD type they never occur in: they carry no
+# contract of their own and stay with the bounded C10.native_mutators job / the contracts named
+_HW_NO_CONTRACT = {
+    ("CT_RegularTextRun", "text.fset"): "stores text only (re.sub over the characters): no child changes; C04",
+    ("CT_TextBody", "unclear_content"): "findall-based; C04 contracts cover it",
+    ("CT_Boolean_Explicit", "val.fset"): "attribute only",
+    ("CT_TimeNodeList", "add_video"): "uses super(); covered by C03 template contract for the video timing",
+    ("CT_GroupShape", "add_grpSp"): "uses super(); has its own contract above (CT_GroupShape.add_grpSp@CT_GroupShape<p:grpSp>)",
+    ("CT_SlideIdList", "add_sldId"): "uses super(); C13 contract add_sldId",
+    ("CT_Slide", "get_or_add_childTnLst"): "uses super(); C03 / C10 contract for _add_childTnLst",
+}
+
+
+def _arg_kinds(fn, nargs):
+    """representative arguments: an opaque value, plus -- when the code inspects its argument -- one value of each kind it can ask about"""
+    import enum
+
+    if not nargs:
+        return [("", [])]
+    try:
+        src = inspect.getsource(fn)
+    except (OSError, TypeError):
+        src = ""
+    kinds = [("", None)]
+    if fn.__name__ == fn.__name__ and (getattr(fn, "__qualname__", "").split(".")[-1] == fn.__name__) and ("isinstance(" in src or " is None" in src or " in " in src or "==" in src or "validate" in src or src.lstrip().startswith("@")):
+        from pptx.util import Emu
+
+        kinds = [("[Length]", Emu(12700)), ("[float]", 1.5), ("[int]", 2), ("[None]", None), ("[True]", True), ("[False]", False)]
+        for nm, g in fn.__globals__.items():
+            if isinstance(g, type) and issubclass(g, enum.Enum) and nm in src:
+                for m in list(g)[:8]:
+                    kinds.append(("[%s.%s]" % (nm, m.name), m))
+    return [(lbl, [v] if lbl else None) for lbl, v in kinds]
+
+
+def _make_handwritten(cls, tag, ct, owner, name, fn, nargs, kind_label="", kind_args=None):
+    M = Model(ct)
+    cname = "C10.%s.%s%s@%s.keeps_children_in_schema_order" % (_qual(owner), name, kind_label, ct.name)
+
+    def replay(model, rec):
+        r = _native_mutators(tier="quick", seed=0)
+        badr = [o for o in r["obligations"] if o["status"] == "refuted"]
+        if badr:
+            return {"confirmed": True, "witness_class": "misplaced-child", "detail": badr[0]["replay"]["detail"]}
+        return {"confirmed": False, "detail": "no hand-written mutator misplaces a child on the corpus parts"}
+
+    @contract("C10", cname, replay=replay, timeout_ms=15000)
+    def body(c):
+        from pyvc.engine import SObj
+
+        kids0, K, n = Kids.symbolic("K")
+        c.input("n", n)
+        parent = SElem(cls, M.table, kids=kids0, tagid=None, name="parent")
+        parent.opaque_children = True
+        c.summaries["<option>ignore_child_attribute_stores"] = True
+        c.requires(M.axioms())
+        c.requires(M.valid_pre(kids0))
+        c.summaries["pptx.oxml.xmlchemy:BaseOxmlElement.remove_all"] = lambda it, a, k: a[0].summary_remove_all(it, a[1:])
+        args = list(kind_args) if kind_args is not None else [SObj(None, "value")] * nargs
+        try:
+            out = c.run(fn, parent, *args)
+        except Unsupported as e:
+            if "content model" in str(e):
+                # the class is registered for several tags / XSD types; this member creates a child the type at hand does not have
+                c.ensures("not_applicable_in_this_type", True)
+                return
+            raise
+        if out.raised:
+            c.ensures("raised.no_claim", True)
+            return
+        c.ensures("valid_after.order_and_multiplicity", M.universal(parent.kids, "1"))
+
+    return body
+
+
+def _build_handwritten():
+    S = xsd.load()
+    bt = xsd.reachable_types(S)
+    done = set()
+    for tag, (cls, attrs, kids) in sorted(decls.all_decls().items()):
+        for key, ct in bt.get(tag, {}).items():
+            if not all(sl.exact for sl in ct.slots):
+                continue
+            for owner, name, fn, nargs in _handwritten_members(cls):
+                k = (owner, name, ct.key)
+                if k in done or (owner.__name__, name) in _HW_NO_CONTRACT:
+                    continue
+                done.add(k)
+                # the member must be able to occur in this XSD type at all: every child it can create is in the type's content model
+                for lbl, kargs in _arg_kinds(fn, nargs):
+                    _make_handwritten(cls, tag, ct, owner, name, fn, nargs, lbl, kargs)
+
+
+_build_handwritten()
